@@ -112,9 +112,9 @@ def _parse(res):
             res.prints.append(re.sub(r'^<<\s*', '<<', buf))
             buf = None
     # coverage: "<Action line 12, col 1 to line 20, col 30 of module M>: 12:34"
-    for m in re.finditer(r"<(\w+) line \d+, col \d+ to line \d+, col \d+ of module (\w+)>: (\d+):(\d+)", out):
-        name, mod, d, g = m.group(1), m.group(2), int(m.group(3)), int(m.group(4))
-        key = f"{mod}.{name}"
+    for m in re.finditer(r"<(\w+) line (\d+), col \d+ to line \d+, col \d+ of module (\w+)(?: \((\d+) \d+ \d+ \d+\))?>: (\d+):(\d+)", out):
+        name, mod, d, g = m.group(1), m.group(3), int(m.group(5)), int(m.group(6))
+        key = f"{mod}.{name}" + (f"@{m.group(4)}" if m.group(4) and name == "Next" else "")
         pd, pg = res.coverage.get(key, (0, 0))
         res.coverage[key] = (max(pd, d), max(pg, g))
 
